@@ -56,6 +56,7 @@ func (_this *Reader) Init(config *configuration.Configuration) {
 
 func (_this *Reader) SetReader(reader io.Reader) {
 	_this.reader = &fullReader{reader: reader}
+	_this.bytesRead = 0
 	_this.countedReader.owner = _this
 }
 
